@@ -16,6 +16,7 @@ let parse_ev (s : string) : pev =
     | id :: k :: _ when k = "c" || k = "z" -> EChunk (n_of_string id)
     | [id; "F"] -> EFin (n_of_string id)
     | [id; k] when String.length k > 0 && k.[0] = 'R' -> EReset (n_of_string id)
+    | [id; "K"] -> EReset (n_of_string id)   (* receive half fails with StreamErrorIncoming::Unknown: terminal like a reset *)
     | [id; k] when String.length k > 0 && k.[0] = 'S' -> EStop (n_of_string id)
     | _ -> failwith ("bad event " ^ s)
 (* back-pressure: the case withholds credit (initial budget / stream credits in the options, or a `W*:` default) *)
